@@ -200,3 +200,37 @@ mutant("c09-saved-flag-read-after-update", "C09", UIF, '    prev = jax.config.ja
 mutant("c09-restore-writes-constant", "C09", "jax2onnx/converter/conversion_api.py", '        if previous != target:\n            jax.config.update("jax_enable_x64", previous)', '        if previous != target:\n            jax.config.update("jax_enable_x64", False)', expect="R-C09a")
 benign("c09-benign-positional-dtype", "C09", "jax2onnx/plugins/jax/lax/round.py", "np.asarray(0.5, dtype=np_dtype)", "np.array(0.5, np_dtype)")
 benign("c09-benign-astype", "C09", "jax2onnx/plugins/jax/lax/round.py", "np.asarray(0.5, dtype=np_dtype)", "np.asarray(0.5).astype(np_dtype)")
+
+# ----------------------------------------------------------------------------- C15
+mutant("c15-naming-after-ir-return", "C15", UIF, "    _apply_custom_io_names_on_ir(\n        result,\n        input_names=normalized_input_names,\n        output_names=normalized_output_names,\n        positional_input_count=len(normalized_inputs),\n    )\n    if normalized_mode == \"ir\":\n        return result\n",
+       "    if normalized_mode == \"ir\":\n        return result\n    _apply_custom_io_names_on_ir(\n        result,\n        input_names=normalized_input_names,\n        output_names=normalized_output_names,\n        positional_input_count=len(normalized_inputs),\n    )\n", expect="_apply_custom_io_names_on_ir")
+mutant("c15-params-only-for-proto", "C15", UIF, "    _materialize_input_params_on_ir(result, param_map)\n", "    if normalized_mode != \"ir\":\n        _materialize_input_params_on_ir(result, param_map)\n", expect="_materialize_input_params_on_ir")
+mutant("c15-web-external-data", "C15", UIF, "            onnx.save_model(model_proto, dest, save_as_external_data=False)", "            onnx.save_model(model_proto, dest, save_as_external_data=True, size_threshold=external_threshold)", expect="web-single-file")
+mutant("c15-web-stale-sidecar-kept", "C15", UIF, "            try:\n                if os.path.exists(data_path):\n                    os.remove(data_path)\n            except OSError:\n                pass\n            return dest", "            return dest", expect="web-stale-sidecar")
+mutant("c15-sidecar-fixed-name", "C15", UIF, '        data_location = os.path.basename(dest) + ".data"', '        data_location = "model.data"', expect="standard-sidecar-location")
+benign("c15-benign-dispatch-order", "C15", UIF, "    model_proto = ir.to_proto(result)\n    if normalized_mode == \"file\":", "    model_proto = ir.to_proto(result)\n    if \"file\" == normalized_mode:")
+
+# ----------------------------------------------------------------------------- C05
+mutant("c05-revert-nchw-keep", "C05", OPT, '            if suffix.endswith("_nchw"):\n                suffix = suffix[: -len("_nchw")]\n', "", expect="_should_always_keep")
+mutant("c05-regex-loses-nchw", "C05", UIF, 'r"^in_(\\d+)(?:_nchw)?$"', 'r"^in_(\\d+)$"', expect="_POSITIONAL_INPUT_NAME_RE")
+mutant("c05-new-writer-pattern", "C05", "jax2onnx/converter/conversion_api.py", 'name=f"in_{index}_nchw",', 'name=f"in_{index}_as_nchw",', expect="in_")
+mutant("c05-prune-in-function-bodies", "C05", OPT, '        prune_unused_graph_inputs_ir,\n        function_bodies=False,\n', "        prune_unused_graph_inputs_ir,\n", expect="top-graph-only")
+mutant("c05-prune-reorders-inputs", "C05", OPT, "        graph.inputs.extend(keep)", "        graph.inputs.extend(sorted(keep, key=lambda v: v.name or ''))", expect="order-and-keep")
+mutant("c05-uniqueness-check-removed", "C05", UIF, '    if len(set(targets)) != len(targets):\n        raise ValueError("Custom input/output names must be globally unique.")\n', "", expect="unique-targets")
+mutant("c05-collision-check-after-rename", "C05", UIF, "    collisions = sorted(name for name in targets if name in occupied_by_other)\n    if collisions:", "    collisions = sorted(name for name in targets if name in occupied_by_other)\n    if collisions and False:", expect="collision")
+mutant("c05-inputs-dropped-elsewhere", "C05", UIF, "    _materialize_input_params_on_ir(result, param_map)\n", "    _materialize_input_params_on_ir(result, param_map)\n    if not param_map:\n        graph = result.graph\n        graph.inputs.pop()\n", expect="removes-graph-inputs")
+benign("c05-benign-regex-equivalent", "C05", UIF, 'r"^in_(\\d+)(?:_nchw)?$"', 'r"^in_([0-9]+)(?:_nchw)?$"')
+benign("c05-benign-keep-rewritten", "C05", OPT, '            if suffix.endswith("_nchw"):\n                suffix = suffix[: -len("_nchw")]\n', '            suffix = suffix.removesuffix("_nchw")\n')
+
+# ----------------------------------------------------------------------------- C12
+CAF = "jax2onnx/converter/conversion_api.py"
+mutant("c12-perm-constant-wrong", "C12", CAF, "_NHWC_TO_NCHW_PERM: tuple[int, int, int, int] = (0, 3, 1, 2)", "_NHWC_TO_NCHW_PERM: tuple[int, int, int, int] = (0, 3, 2, 1)", expect="_NHWC_TO_NCHW_PERM")
+mutant("c12-input-bridge-wrong-direction", "C12", CAF, "            perm=list(_NCHW_TO_NHWC_PERM),", "            perm=list(_NHWC_TO_NCHW_PERM),", expect="transpose-direction")
+mutant("c12-output-shape-wrong-perm", "C12", CAF, "                tuple(src_dims[p] for p in _NHWC_TO_NCHW_PERM)", "                tuple(src_dims[p] for p in _NCHW_TO_NHWC_PERM)", expect="declared-shape")
+mutant("c12-rank-check-dropped", "C12", CAF, '        self._require_4d(aval_shape, kind="output", index=index)\n', "", expect="require-4d")
+mutant("c12-require-4d-accepts-rank3", "C12", CAF, "        if len(shape) == 4:\n            return", "        if len(shape) >= 3:\n            return", expect="_require_4d")
+mutant("c12-duplicate-indices-accepted", "C12", CAF, '        if idx in seen:\n            raise ValueError(f"{kind} indices must be unique; duplicate {idx} found")\n', "", expect="duplicate")
+mutant("c12-raw-indices-used", "C12", CAF, "        validated_inputs_as_nchw = trace.inputs_as_nchw\n", "        validated_inputs_as_nchw = tuple(inputs_as_nchw or ())\n", expect="validated")
+mutant("c12-origins-on-internal-value", "C12", CAF, "        self.ctx.record_symbolic_dim_origins(nchw_shape, nchw_input_val)", "        self.ctx.record_symbolic_dim_origins(aval_shape, transposed)", expect="origin-on-external-value")
+mutant("c12-all-outputs-bridged", "C12", CAF, "            if index in nchw_outputs_indices:\n                self.bind_output(out_var, index)\n            else:\n                self.ctx.add_outputs_from_vars([out_var])", "            if index in nchw_outputs_indices or len(out_var.aval.shape) == 4:\n                self.bind_output(out_var, index)\n            else:\n                self.ctx.add_outputs_from_vars([out_var])", expect="plain-path")
+benign("c12-benign-perm-as-list", "C12", CAF, "            perm=list(_NCHW_TO_NHWC_PERM),", "            perm=[int(p) for p in _NCHW_TO_NHWC_PERM],")
